@@ -3,16 +3,17 @@ import TakVerif.Props.C20_size5
 import TakVerif.Props.C20_size6
 import TakVerif.Props.C20_size7
 import TakVerif.Props.C20_size8
+import TakVerif.Props.C20_glue
 
 /-! # C20 over all board sizes: the per-size theorems combined
 
-`fpa_doubleStack` is the full claim `fpa_doubleStack_statement` (sizes 4..8, both colours).  For the cairn
-variant the proved part is `fpa_cairn_partial` (sizes 4 and 5 both colours, size 6 as White);
-`fpa_cairn_statement` stays a definition: as Black the cairn tree has about 1 s of kernel evaluation per
-pair of first stones (White's ply-2 stone has 12 accepted squares, each with its own subtree), 4·10³ pairs
-on 8×8. -/
+`fpa_doubleStack` is the full claim `fpa_doubleStack_statement` and `fpa_cairn` the full claim
+`fpa_cairn_statement` (sizes 4..8, both colours).  Cairn on 4×4 and 5×5 is evaluated opening by opening;
+on 6×6, 7×7 and 8×8 it goes through the frame theorem (`holds_of_frame`, `Proofs.FPAFrame.check_frame`):
+first stones that are neither on a centre square nor next to one are never looked at or moved, so that
+the 1260 / 2352 / 4032 pairs of first stones reduce to 157 / 31 / 157 placements on those squares. -/
 namespace C20
-open Tak Tak.FPA Spec.FPA Proofs.FPA Proofs.FPAMini
+open Tak Tak.FPA Tak.Glue Spec.FPA Proofs.FPA Proofs.FPAMini
 
 /-- **Double-stack variant, every board size 4..8, both colours** (`fpa_doubleStack_statement`): for every
 opening — all placements of the two first stones, every move of the generator that is legal by the rule
@@ -35,20 +36,55 @@ theorem fpa_doubleStack : fpa_doubleStack_statement := by
   · exact fpa_doubleStack_partial8_white
   · exact fpa_doubleStack_partial8_black
 
-/-- the part of `fpa_cairn_statement` that is proved: both colours on the 4×4 and 5×5 boards, the bot as
-White on 6×6.  Missing: as Black on 6×6, both colours on 7×7 and 8×8 (covered on every run by the
-exhaustive correspondence of the same model against the real code, not by a kernel evaluation). -/
-theorem fpa_cairn_partial :
-    (∀ size ∈ [4, 5], ∀ color ∈ [Color.white, Color.black], Holds .cairn color size 6) ∧
-    Holds .cairn .white 6 6 := by
-  refine ⟨?_, fpa_cairn_partial6_white⟩
+/-- **Cairn variant, every board size 4..8, both colours** (`fpa_cairn_statement`): for every opening — all
+placements of the two first stones, every move of the generator that is legal by the rule book and accepted
+by the variant's own rule check at each unscripted ply — every move the bot scripts (plies 2 and 4 as
+White: the stone beside the centre and its step onto a centre square next to Black's stone; plies 3 and 5 as
+Black: the first free square the rule accepts two steps from White's stone, diagonal towards the centre
+first, and the capture of White's stone) is legal by the rule book and accepted by that same rule check, and
+the rule code never panics. -/
+theorem fpa_cairn : fpa_cairn_statement := by
   intro size hs color hc
   simp only [List.mem_cons, List.mem_nil_iff, or_false] at hs hc
-  rcases hs with rfl | rfl <;> rcases hc with rfl | rfl
+  rcases hs with rfl | rfl | rfl | rfl | rfl <;> rcases hc with rfl | rfl
   · exact fpa_cairn_partial_white
   · exact fpa_cairn_partial_black
   · exact fpa_cairn_partial5_white
   · exact fpa_cairn_partial5_black
+  · exact fpa_cairn_partial6_white
+  · exact fpa_cairn_partial6_black
+  · exact fpa_cairn_partial7_white
+  · exact fpa_cairn_partial7_black
+  · exact fpa_cairn_partial8_white
+  · exact fpa_cairn_partial8_black
+
+/-- all three variants, sizes 4..8, both colours, with the horizon each is stated for -/
+theorem fpa_all (var : Variant) (size : Nat) (hs : size ∈ [4, 5, 6, 7, 8]) (color : Color)
+    (hc : color ∈ [Color.white, Color.black]) : Holds var color size (if var = .center then 2 else 6) := by
+  cases var
+  · exact fpa_centre size hs color hc
+  · exact fpa_doubleStack size hs color hc
+  · exact fpa_cairn size hs color hc
+
+/-- **`Friendly.GetMove` under the double-stack or the cairn rule, every board size 4..8, both colours**: every
+move returned during the scripted opening (6 plies and the check of the last one) is the zero move or legal by
+the rule book — `friendly_move_legal` (`Props/C20_glue.lean`) with its hypothesis `Holds` discharged by
+`fpa_doubleStack` and `fpa_cairn` (there it was available for 4×4 and 5×5 only: `friendly_move_legal_4x4_5x5`). -/
+theorem friendly_move_legal_all_sizes (var : Variant) (hv : var ≠ .center) (color : Color)
+    (hc : color ∈ [Color.white, Color.black]) (size : Nat) (hs : size ∈ [4, 5, 6, 7, 8])
+    (k : Nat) (hk : k ≤ 6) (t : St Spec.State) (hreach : Reach specBoard var color k (init size) t)
+    (g : GameRec) (p : Pos) (o : CheckOracle) (f' : Option (Variant × Rule)) (a : Action)
+    (hcol : g.color = color) (hview : viewOfPos p = viewOf t.cur) (hmv : p.toMove = t.cur.toMove)
+    (hprev : prevViews g = t.prev.map (fun (q, m) => (viewOf q, m)))
+    (h : Glue.friendlyGetMove (some (var, t.rule)) g p o = .ok (f', a))
+    (ans : Move) (hsearch : a.searches = true → (Spec.step t.cur (Spec.decode ans)).isSome = true) :
+    a.returned ans = zeroMove ∨ (Spec.step t.cur (Spec.decode (a.returned ans))).isSome = true := by
+  have hH : Holds var color size 6 := by
+    cases var
+    · exact absurd rfl hv
+    · exact fpa_doubleStack size hs color hc
+    · exact fpa_cairn size hs color hc
+  exact friendly_move_legal var color size 6 hH k hk t hreach g p o f' a hcol hview hmv hprev h ans hsearch
 
 /-! ### a concrete instance on the 8×8 board
 
@@ -95,6 +131,58 @@ example : (Spec.step ex2.cur (Spec.decode ⟨7, 7, Facts.mtSlideLeft, 1⟩)).isS
   | ok v =>
     obtain ⟨r, rep⟩ := v
     have h2 := ex2_turn.1
+    simp only [ht, Except.toOption, Option.map] at h2
+    cases h2
+    exact good_scripted _ _ _ _ _ hg ht
+
+/-! ### … and one for the cairn variant: `a1`, `h8`, White's cairn stone on `d4`, the bot as Black -/
+
+/-- the state after Black's stone on a1 -/
+def cx1 : St Spec.State := (next specBoard .cairn .black (init 8)).getD 0 (init 8)
+/-- … White's stone on h8 (placed by the bot) -/
+def cx2 : St Spec.State := (next specBoard .cairn .black cx1).getD 62 (init 8)
+/-- … and White's cairn stone on d4 (the fourth of the 12 squares the rule accepts) -/
+def cx3 : St Spec.State := (next specBoard .cairn .black cx2).getD 3 (init 8)
+
+theorem cx1_mem : cx1 ∈ next specBoard .cairn .black (init 8) := by
+  unfold cx1
+  have h : 0 < (next specBoard .cairn .black (init 8)).length := by decide +kernel
+  simp only [List.getD_eq_getElem?_getD, List.getElem?_eq_getElem h, Option.getD_some]
+  exact List.getElem_mem h
+
+theorem cx2_mem : cx2 ∈ next specBoard .cairn .black cx1 := by
+  unfold cx2
+  have h : 62 < (next specBoard .cairn .black cx1).length := by decide +kernel
+  simp only [List.getD_eq_getElem?_getD, List.getElem?_eq_getElem h, Option.getD_some]
+  exact List.getElem_mem h
+
+theorem cx3_mem : cx3 ∈ next specBoard .cairn .black cx2 := by
+  unfold cx3
+  have h : 3 < (next specBoard .cairn .black cx2).length := by decide +kernel
+  simp only [List.getD_eq_getElem?_getD, List.getElem?_eq_getElem h, Option.getD_some]
+  exact List.getElem_mem h
+
+theorem cx3_reach : Reach specBoard .cairn .black 3 (init 8) cx3 :=
+  .step 2 _ _ _ cx1_mem (.step 1 _ _ _ cx2_mem (.step 0 _ _ _ cx3_mem (.refl _)))
+
+/-- what the rule does at `cx3`: Black's first stone is on a1 and White's on h8 (both far from the centre: the
+frame theorem's case), White's cairn stone on d4, and the bot (Black) scripts its own on e5 -/
+theorem cx3_turn :
+    (turn specBoard .cairn .black cx3).toOption.map (·.2) = some (.scripted (place 4 4)) ∧
+    (cx3.cur.squares.getD 0 [], cx3.cur.squares.getD 63 [], cx3.cur.squares.getD 27 []) =
+      ([⟨.black, .flat⟩], [⟨.white, .flat⟩], [⟨.white, .flat⟩]) := by
+  decide +kernel
+
+/-- the instance of `fpa_cairn`: that scripted move is legal by the rule book -/
+example : (Spec.step cx3.cur (Spec.decode (place 4 4))).isSome = true := by
+  have hg := fpa_cairn 8 (by simp) .black (by simp) 3 cx3 (by omega) cx3_reach
+  cases ht : turn specBoard .cairn .black cx3 with
+  | error e =>
+    have h2 := cx3_turn.1
+    simp [ht, Except.toOption] at h2
+  | ok v =>
+    obtain ⟨r, rep⟩ := v
+    have h2 := cx3_turn.1
     simp only [ht, Except.toOption, Option.map] at h2
     cases h2
     exact good_scripted _ _ _ _ _ hg ht
